@@ -24,6 +24,15 @@ Definition tabs (sy tg : sexp) : tables := mkTables (d_symbols sy) (d_tags tg) m
    5: Text.from_latex(v).render(latex)  [decoded v, symbols tags enc]
    6: format_tag / format_href / format_protected on an arbitrary rendered text
                                         [backend kind name-or-url external text tags enc] *)
+Definition d_op (s : sexp) : bop :=
+  match d_Z (d_nth s 0) with
+  | 0%Z => OpDoc (d_str (d_nth s 1)) (d_list d_entry (d_nth s 2))
+  | 1%Z => OpRender (d_tree (d_nth s 1))
+  | 2%Z => OpStr (d_str (d_nth s 1))
+  | _ => OpEntry (d_str (d_nth s 1)) (d_str (d_nth s 2)) (d_str (d_nth s 3))
+  end.
+
+(* 7: one back-end object, several uses in a row   [backend php_extra encoding symbols tags enc ops] *)
 Definition dispatch (fn : Z) (a : sexp) : sexp :=
   match fn with
   | 1%Z => e_res e_str (render (enc_tab (d_enc (d_nth a 3))) (tabs (d_nth a 1) (d_nth a 2)) (d_backend (d_nth a 0)) (d_tree (d_nth a 4)))
@@ -43,6 +52,9 @@ Definition dispatch (fn : Z) (a : sexp) : sexp :=
            | 1%Z => format_href enc b x text (d_bool (d_nth a 3))
            | _ => format_protected b text
            end))
+  | 7%Z => e_list (e_res e_str)
+             (run_history (enc_tab (d_enc (d_nth a 5))) (tabs (d_nth a 3) (d_nth a 4)) (d_backend (d_nth a 0))
+                          (d_bool (d_nth a 1)) (d_str (d_nth a 2)) (mkBState [] []) (d_list d_op (d_nth a 6)))
   | _ => L []
   end.
 
